@@ -719,6 +719,37 @@ pub fn run(_params: &Params) {
       }
     }
   }
+  // ---- a body written by another implementation whose controller is a DID that ends in a percent-encoded octet (legal
+  // DID syntax): whatever unpack makes of it, it returns
+  if ctx::choose(12) == 0 {
+    if let Some(v) = ledger.entries.get(&p.did).and_then(|vs| vs.last()) {
+      if let Some(mut body) = v.bytes.get(7..).and_then(|b| serde_json::from_slice::<Value>(b).ok()) {
+        let odd = ["did:example:abc%20", "did:iota:%30", "did:web:example.com%3A", "did:example:caf%C3%A9"][ctx::choose(4)];
+        if body.get("doc").is_some() {
+          body["doc"]["controller"] = odd.into();
+          let text = body.to_string().into_bytes();
+          if text.len() <= u16::MAX as usize {
+            let mut bytes = b"DID".to_vec();
+            bytes.push(1);
+            bytes.push(0);
+            bytes.extend_from_slice(&(text.len() as u16).to_le_bytes());
+            bytes.extend_from_slice(&text);
+            ctx::stat("probe.body_with_did_ending_in_percent_octet");
+            ctx::sched("pctdid", odd.len() as u64);
+            if let Err(pmsg) = ctx::catch(|| unpack_for(&bytes, &p.did)) {
+              ctx::violation(
+                "C14",
+                "C14.rejects_bad_header",
+                "foreign-body/did-ending-in-percent-octet/panic",
+                format!("unpack panicked on a well-formed body whose controller is {odd}: {pmsg}"),
+              );
+            }
+          }
+        }
+      }
+    }
+  }
+
   // ---- I14.1 for machine-generated trees: a custom property (of the document or of its metadata) whose value is nested
   // 40..200 levels deep. The writer has no depth limit; whatever packs has to unpack as the same document.
   if ctx::choose(20) == 0 {
